@@ -89,6 +89,37 @@ class GaussHole(Gauss):
         return np.where(x[self.names[0]] > 2.5, -np.inf, out)
 
 
+class GW5(Model):
+    """GW-named parameters with conventional bounds; priors: uniform in mass parameters,
+    ra, psi; cosine in dec; Gaussian likelihood in rescaled coordinates.  Exists only to
+    drive GWFlowProposal's default reparameterisations."""
+
+    def __init__(self):
+        self.names = ["chirp_mass", "mass_ratio", "ra", "dec", "psi"]
+        self.bounds = {
+            "chirp_mass": [20.0, 40.0],
+            "mass_ratio": [0.125, 1.0],
+            "ra": [0.0, 2 * np.pi],
+            "dec": [-np.pi / 2, np.pi / 2],
+            "psi": [0.0, np.pi],
+        }
+        self._mid = {n: 0.5 * (b[0] + b[1]) for n, b in self.bounds.items()}
+        self._w = {n: (b[1] - b[0]) for n, b in self.bounds.items()}
+
+    def log_prior(self, x):
+        with np.errstate(divide="ignore", invalid="ignore"):
+            lp = np.log(self.in_bounds(x), dtype="float64")
+            lp = lp + np.log(np.cos(x["dec"]))
+        return np.where(self.in_bounds(x), lp, -np.inf)
+
+    def log_likelihood(self, x):
+        out = np.zeros(x.size)
+        for n in self.names:
+            u = (x[n] - self._mid[n]) * (4.0 / self._w[n])
+            out = out + u * u * (-0.5)
+        return out
+
+
 class Guarded:
     """Mixin-free wrapper: records every likelihood call of a model and checks
     that every row is inside the prior support (C09 likelihood-call guard)."""
@@ -135,6 +166,8 @@ def make(name="G2", **kw):
         return Gauss(4, **kw)
     if name == "G2hole":
         return GaussHole(2, **kw)
+    if name == "GW5":
+        return GW5()
     if name == "G2ramp":
         return GaussRamp(2, **kw)
     raise ValueError(name)
